@@ -16,6 +16,7 @@ pub mod c14;
 pub mod c15;
 pub mod c16;
 pub mod c17;
+pub mod c19;
 pub mod statespace;
 pub mod lin;
 pub mod common;
@@ -47,13 +48,14 @@ pub fn run(id: &str, reg: &dyn Registry, ctx: &Ctx) -> Option<Outcome> {
         "C15" => Some(c15::run(reg, ctx)),
         "C16" => Some(c16::run(reg, ctx)),
         "C17" => Some(c17::run(reg, ctx)),
+        "C19" => Some(c19::run(reg, ctx)),
         _ => None,
     }
 }
 
 /// C19 solo child entry point (filled in by c19).
-pub fn solo_main(_reg: &dyn Registry, _args: &[String]) -> i32 {
-    2
+pub fn solo_main(reg: &dyn Registry, args: &[String]) -> i32 {
+    c19::solo_main(reg, args)
 }
 
 pub fn replay_lockstep(reg: &dyn Registry, r: &serde_json::Value) -> i32 {
